@@ -20,7 +20,7 @@ use crate::verif_io::{TcpStream, ToSocketAddrs};
 use tokio::net::tcp::{OwnedReadHalf, OwnedWriteHalf};
 #[cfg(not(repe_verif))]
 use tokio::net::{TcpStream, ToSocketAddrs};
-use tokio::sync::{Mutex, oneshot};
+use tokio::sync::{Mutex, oneshot, watch};
 use tokio::task::JoinError;
 use tokio::time::{Duration, timeout};
 
@@ -41,6 +41,11 @@ struct AsyncClientInner {
     /// dropped): part of a frame may be on the wire or in the write buffer, so
     /// nothing more may be written on this connection.
     write_torn: AtomicBool,
+    /// Flipped to `true` by the response loop once the connection has failed.
+    /// Request writes race against it, so a write that is blocked on a peer
+    /// that stopped reading (or queued behind such a write on the writer lock)
+    /// ends with an error instead of outwaiting a connection already known dead.
+    failed: watch::Sender<bool>,
 }
 
 /// Marks the connection unusable for writing unless the write it guards ran
@@ -134,6 +139,7 @@ impl AsyncClient {
             next_id: AtomicU64::new(1),
             shutdown: StdMutex::new(Some(shutdown_tx)),
             write_torn: AtomicBool::new(false),
+            failed: watch::channel(false).0,
         });
 
         spawn_response_loop(
@@ -683,6 +689,15 @@ impl AsyncClient {
     }
 
     async fn write_request(&self, msg: &Message) -> Result<(), RepeError> {
+        let mut failed = self.inner.failed.subscribe();
+        tokio::select! {
+            biased;
+            _ = failed.wait_for(|failed| *failed) => Err(connection_failed_error()),
+            result = self.write_request_unless_torn(msg) => result,
+        }
+    }
+
+    async fn write_request_unless_torn(&self, msg: &Message) -> Result<(), RepeError> {
         let mut writer = self.inner.writer.lock().await;
         if self.inner.write_torn.load(Ordering::Acquire) {
             return Err(RepeError::Io(std::io::Error::new(
@@ -917,10 +932,11 @@ async fn fail_all_pending(inner: &std::sync::Weak<AsyncClientInner>, err: RepeEr
         return;
     };
 
-    {
-        let mut writer = inner_ref.writer.lock().await;
-        let _ = writer.shutdown().await;
-    }
+    // Fail the callers before touching the writer: a request write may be
+    // blocked on a peer that stopped reading, and it holds the writer lock for
+    // as long as it is. Marking the connection failed first ends that write
+    // (and any request queued behind it) with an error, which frees the lock.
+    inner_ref.failed.send_replace(true);
 
     let waiters = {
         let mut pending = lock_pending_map(&inner_ref.pending);
@@ -929,6 +945,13 @@ async fn fail_all_pending(inner: &std::sync::Weak<AsyncClientInner>, err: RepeEr
 
     for (request_id, sender) in waiters {
         let _ = sender.send(Err(clone_fatal_error_for_waiter(&err, request_id)));
+    }
+
+    {
+        let mut writer = inner_ref.writer.lock().await;
+        // Shut the socket itself: flushing whatever an interrupted write left
+        // in the buffer could block on the same peer again.
+        let _ = writer.get_mut().shutdown().await;
     }
 }
 
@@ -990,6 +1013,13 @@ fn response_channel_closed_error(request_id: u64) -> RepeError {
     RepeError::Io(std::io::Error::new(
         ErrorKind::ConnectionAborted,
         format!("response channel closed for request {request_id}"),
+    ))
+}
+
+fn connection_failed_error() -> RepeError {
+    RepeError::Io(std::io::Error::new(
+        ErrorKind::BrokenPipe,
+        "connection failed: the response loop has ended",
     ))
 }
 
